@@ -125,6 +125,17 @@ fn check_bundle(b: &Bundle, loc: &mut Local) -> Result<(), (String, String)> {
                 let pt = tree(&pb);
                 let r = run_one(&pt, f);
                 loc.evals += 1;
+                // with the cost limit set to the exact cost of the original order, every order
+                // must still be accepted (acceptance under a limit must not depend on order)
+                if let Some((_, c)) = &base {
+                    loc.evals += 1;
+                    match real_parse(&pt, f, *c) {
+                        Ok(ro) if ro.cost == *c => {}
+                        other => {
+                            return Err(("order-changes-verdict-at-exact-limit".into(), format!("flags {} limit {c}\noriginal {t:?} accepted with cost {c}\npermuted {pt:?} -> {:?}", rflags_name(f), other.map(|r| r.cost))));
+                        }
+                    }
+                }
                 let ru = r.as_ref().map(|(s, c)| (unordered(s), *c));
                 if ru != base_u {
                     let what = match (&base_u, &ru) {
